@@ -425,8 +425,17 @@ def r5(k: Kit) -> None:
     # _recv_data loop
     rdv = k.func(CONN + '_recv_data')
     loops = [x for x in walk_shallow(rdv.node) if isinstance(x, ast.While)]
-    okl = len(loops) == 1 and norm(loops[0].test) == \
-        'self._inpbuf and self._recv_handler()'
+    # the loop goes on while there is input and the current handler made
+    # progress; further conjuncts may only read connection state
+    okl = False
+    if len(loops) == 1:
+        t = loops[0].test
+        ops = t.values if isinstance(t, ast.BoolOp) and isinstance(
+            t.op, ast.And) else [t]
+        okl = any(dotted(o) == 'self._inpbuf' for o in ops) and \
+            is_call(ops[-1], '_recv_handler', 'self') and all(
+                (dotted(o) or '').startswith('self._') or o is ops[-1]
+                for o in ops)
     rep.check(okl, 'C02.R5', key(rdv, 'parse loop'),
               'parses while data is buffered and the handler made progress',
               'receive loop condition changed', rdv.loc(rdv.node))
@@ -627,7 +636,11 @@ def r12(k: Kit) -> None:
                 v = r.ast.value
                 ok = is_call(v, ctor) and len(v.args) == 1
                 if ok and ctor == 'MPInt':
-                    ok = is_call(v.args[0], 'get_shared')
+                    leaves, free = expr_sources(g, k.rd(fi), r.id, v.args[0])
+                    ok = any(is_call(c, 'get_shared')
+                             for c in [v.args[0]] + list(leaves)) and all(
+                        is_call(c, 'get_shared') or isinstance(c, ast.Name)
+                        for c in [v.args[0]] + list(leaves))
                 rep.check(ok, 'C02.R12', key(fi, f'K is {ctor}(...)'),
                           f'return {ctor}(...get_shared(...))'
                           if ctor == 'MPInt' else f'return {ctor}(...)',
@@ -640,42 +653,73 @@ def r12(k: Kit) -> None:
     rep.floor('C02.R12', 'shared-secret returns', n, 6)
 
 
-def r13(k: Kit) -> None:
+def compression_renewed(k: Kit, rule: str) -> None:
     """Compression starts afresh with every NEWKEYS."""
     rep = k.rep
-    rep.rule('C02.R13', 'send_newkeys creates a new compressor and a new '
-             '(staged) decompressor at every key exchange - the stores are '
-             'unconditional calls of get_compressor / get_decompressor: '
-             'RFC 4253 §6.2 re-initialises the compression context with '
-             'the new keys, a peer that does cannot inflate packets that '
-             'continue the old deflate stream')
-    fi = k.func(CONN + 'send_newkeys')
-    g = k.cfg(fi)
+    cls = k.idx.cls('connection.SSHConnection')
+    ctx = ('self._compressor', 'self._decompressor',
+           'self._next_decompressor')
     n = 0
-    for fld, fn in (('self._compressor', 'get_compressor'),
-                    ('self._next_decompressor', 'get_decompressor')):
-        st = k.stores_to(fi, fld)
-        for nd, v in st:
-            n += 1
-            fresh = v is not None and is_call(v, fn)
-            # not skipped when a context already exists
-            cond = any(
-                a.kind == 'atom' and a.ast is not None and any(
-                    d in names_read(a.ast) for d in (
-                        'self._compressor', 'self._decompressor',
-                        'self._next_decompressor'))
-                and g.path(a.id, nd.id) is not None for a in g.nodes)
-            rep.check(fresh and not cond, 'C02.R13',
-                      key(fi, f'{fld[5:]} renewed at NEWKEYS'),
-                      f'{fld} = {fn}(...) unconditionally',
-                      f'`{fld} = {norm(v) if v is not None else "?"}` '
-                      '(or a test on the existing context in front of it): '
-                      'the zlib context of the first exchange survives a '
-                      're-key, asyncssh to asyncssh stays in sync, an RFC '
-                      'peer fails with "incorrect header check" on the '
-                      'first packet after the second NEWKEYS',
-                      k.loc(fi, nd))
-    rep.floor('C02.R13', 'compression context stores', n, 4)
+    storing = {}
+    for m in cls.methods.values():
+        if m.name == '__init__':
+            continue
+        g = k.cfg(m)
+        for fld, fn in (('self._compressor', 'get_compressor'),
+                        ('self._next_decompressor', 'get_decompressor')):
+            for nd, v in k.stores_to(m, fld):
+                n += 1
+                storing.setdefault(m.name, set()).add(fld)
+                fresh = v is not None and is_call(v, fn)
+                cand = [a for a in g.nodes if a.kind == 'atom' and
+                        a.ast is not None and (
+                            any(d in names_read(a.ast) for d in ctx) or
+                            any('cmp_alg' in d for d in names_read(a.ast)))]
+                # the store is control dependent on the atom: every path
+                # to it takes one particular edge of the atom
+                cond = [a for a in cand if any(
+                    g.guarded_by(nd.id, lambda x, a=a, e=e: e
+                                 if x.id == a.id else None) is None
+                    for e in (True, False))]
+                rep.check(fresh and not cond, rule,
+                          key(m, f'{fld[5:]} renewed at NEWKEYS'),
+                          f'{fld} = {fn}(...) unconditionally',
+                          f'`{fld} = {norm(v) if v is not None else "?"}`'
+                          + (f' under `{norm(cond[0].ast)}`' if cond else '')
+                          + ': the zlib context of an earlier exchange '
+                          'survives a re-key - asyncssh to asyncssh may '
+                          'stay in sync, an RFC 4253 peer (fresh context at '
+                          'NEWKEYS) fails to inflate the first packet after '
+                          'the second NEWKEYS', k.loc(m, nd))
+    rep.floor(rule, 'compression context stores', n, 2)
+    # send_newkeys reaches both stores (itself or through a helper it
+    # calls on every path)
+    sn = cls.methods['send_newkeys']
+    g = k.cfg(sn)
+    for fld in ('self._compressor', 'self._next_decompressor'):
+        doers = [nd.id for nd, v in k.stores_to(sn, fld)]
+        for hn, flds in storing.items():
+            if fld in flds and hn != 'send_newkeys':
+                doers += [nd.id for nd, c in k.calls_named(sn, hn, 'self')]
+        w = g.path(g.entry, g.exit, blocked_nodes=doers, follow_exc=False)
+        rep.check(bool(doers) and w is None, rule,
+                  key(sn, f'{fld[5:]} set on every path'),
+                  'every path through send_newkeys renews it',
+                  f'send_newkeys can finish without a new {fld[5:]}',
+                  sn.loc(sn.node), g.describe_path(w) if w else None)
+
+
+def r13(k: Kit) -> None:
+    rep = k.rep
+    rep.rule('C02.R13', 'SSHConnection creates a new compressor and a new '
+             '(staged) decompressor at every key exchange - every store of '
+             'them outside __init__ is an unconditional get_compressor / '
+             'get_decompressor call (no test of the old context or of the '
+             'negotiated name in front of it, in send_newkeys or in a '
+             'helper), and send_newkeys reaches both on every path: RFC '
+             '4253 §6.2 re-initialises the compression context with the '
+             'new keys')
+    compression_renewed(k, 'C02.R13')
 
 
 def run(idx, rep, tier):
@@ -741,3 +785,8 @@ def run(idx, rep, tier):
     _c06r2(k)
     for o in rep.obligations[_before:]:
         o.rule = 'C02.R11'
+    from .shared import share
+    from .c03 import r5 as _c03r5
+    share(k, 'C02.R14', 'the algorithms put into use are the negotiated ones (= C03.R5): _choose_alg walks the client list in both roles, so a server never encrypts, MACs or compresses with its own first choice', _c03r5, keep=lambda key: '_choose_alg' in key)
+    from .c01 import r3 as _c01r3
+    share(k, 'C02.R15', 'sequence numbers count every packet modulo 2^32 (= C01.R3): both counters advance by (n + 1) & 0xffffffff', _c01r3, keep=lambda key: 'seq' in key)
